@@ -17,7 +17,7 @@ CLAIMED = {
               "(tied by correspondence only); int64 overflow not modelled (Nat); n ∈ {1,3} covered by the general executable "
               "model and correspondence, theorems are for n = 2."),
         technique="Lean 4 proof (induction over the loops; involution steps) + model/implementation correspondence",
-        design="§3 C07"),
+        design="I.2 C07, II §3 C07"),
 }
 
 
@@ -33,90 +33,102 @@ CLAIMED.update({
               "exhaustive small-grid correspondence (every line <=3 vertices, all grid triangles, shells with holes, multi-part shapes x every "
               "integer box, all forms: array / inds / scalar / GeoSeries / sliced, five subtypes) plus seeded random shapes, and an independent "
               "exact-rational oracle compared with the model on a share of the cases.",
-              STD_NOTE + "What is proved vs. still open is listed theorem by theorem in the evidence and in DESIGN.md §3 C01.",
-              "Lean 4 proof about the kernel model + model/implementation/oracle correspondence", "§3 C01"),
+              STD_NOTE + "Proved exact (iff, over rational points) for point, multipoint, line, ring, multiline and for segments_intersect; the polygon / "
+              "multipolygon clause is partial: the boundary part is proved, the step 'no boundary point in the box => the corner winding test decides' "
+              "needs winding constancy (DESIGN Appendix B), which is a paper proof - there the tie is the exhaustive correspondence and the exact oracle.",
+              "Lean 4 proof about the kernel model + model/implementation/oracle correspondence", "I.2 C01, II §3 C01"),
     "C02": _c("Lean model of point-vs-shape intersects (Geom.point*, the winding loop as coded) with the theorems of Props/C02.lean; "
               "correspondence over every shape of the grid families x every grid point (rays through vertices, points on edges), a missing and an "
               "all-NaN point, array / inds / scalar / GeoSeries forms, plus seeded random shapes; on-ring points compared for form agreement only.",
-              STD_NOTE + "The topological step from the proved winding facts to 'inside' is a paper argument (DESIGN §5).",
-              "Lean 4 proof about the winding-number model + correspondence with exact oracle", "§3 C02"),
+              STD_NOTE + "Proved exact (iff) for point, multipoint, line, multiline; for polygons the edge rule (closed form and geometric reading), "
+              "antisymmetry under reversal, zero outside the bounding box and the shell-minus-holes decision logic are proved; that a simple ring winds "
+              "+-1 exactly around its interior (Jordan) is a paper argument, so the polygon clause is partial (DESIGN I.2, I.7).",
+              "Lean 4 proof about the winding-number model + correspondence with exact oracle", "I.2 C02, II §3 C02"),
     "C03": _c("Lean page-tree model of the Hilbert R-tree (Model/RTree.lean) proved for every permutation of the rows (so for every p) and every "
               "page size; correspondence: exhaustive d=1 (n<=3, endpoints 0..3 or NaN, every page size and query), small exhaustive d=2, seeded "
               "trees up to n=2000 with ties, NaN rows, pickled and re-queried instances; results collected before comparison.",
               STD_NOTE + "The array encoding of the tree (index arithmetic) is validated by the correspondence, not proved.",
-              "Lean 4 proof by induction over the page tree + correspondence", "§3 C03"),
+              "Lean 4 proof by induction over the page tree + correspondence", "I.2 C03, II §3 C03"),
     "C13": _c("Lean model of the NaN-aware bounds scans (Model/Bounds.lean) with the theorems of Props/C13.lean; correspondence for all kinds x "
               "subtypes, missing / empty / non-finite coordinates, derived arrays with non-zero offsets, GeoSeries / Dask / spatial-index wrappers.",
-              STD_NOTE, "Lean 4 proof about the scan model + correspondence", "§3 C13"),
+              STD_NOTE, "Lean 4 proof about the scan model + correspondence", "I.2 C13, II §3 C13"),
     "C14": _c("Lean model of compute_area / compute_line_length (doubled areas, squared segment lengths, all in Int) with the theorems of "
               "Props/C14.lean; correspondence compares areas exactly, lengths as the same fold of square roots, boundary ring by ring, scalar vs "
               "array, translation, missing -> NaN, for all kinds / subtypes / derived arrays.",
               STD_NOTE + "sqrt and float addition are applied by the harness in the model's order (IEEE), not interpreted in Lean.",
-              "Lean 4 proof about the measure model + correspondence", "§3 C14"),
+              "Lean 4 proof about the measure model + correspondence", "I.2 C14, II §3 C14"),
     "C15": _c("Lean model of orient_polygons on abstract rings (Geom.orientRings) with the theorems of Props/C15.lean; correspondence over every "
               "combination of ring directions, degenerate rings, slices, multi-part elements; idempotence, input untouched, valid-polygon clauses "
               "checked directly on the implementation.",
-              STD_NOTE, "Lean 4 proof about the orientation model + correspondence", "§3 C15"),
-    "C16": _c("Stateful model-based correspondence: random derivation histories with every quantity compared against the same selection of the "
-              "source's; request validation compared with the Lean spec Select.takeSpec/getItemSpec (theorems in Props/C16.lean).",
-              STD_NOTE + "pyarrow slice/take/concat are specified by their effect on the decoded elements and validated at run time; the Arrow "
-              "buffer layer is not yet modelled in Lean, so the proof part covers request validation only (partial).",
-              "Lean 4 spec of selection validation + stateful model-based correspondence", "§3 C16"),
+              STD_NOTE, "Lean 4 proof about the orientation model + correspondence", "I.2 C15, II §3 C15"),
+    "C16": _c("Two Lean layers with the theorems of Props/C16.lean: request validation (Select.takeSpec / getItemSpec: which positions take and "
+              "arr[i] select, which error they raise) and the Arrow buffer layer (Model/Arrow.lean: a derived array is a window on shared buffers; "
+              "elements of a slice = slice of the elements; what _ListArrayBufferMixin hands a kernel for element i is element i for any window and "
+              "buffer layout, depth 1-3; flat_values, buffer_inner_offsets, fixed-width arrays). Tie: random derivation histories; after every step "
+              "elements, mask and every derived quantity against the same selection of the source, and the raw Arrow buffers of the derived array are "
+              "fed to the model whose elements / offsets / flat values must equal the implementation's.",
+              STD_NOTE + "pyarrow's own slice / take / concat_arrays / pickling produce the buffers; they are observed (their output is what the model "
+              "is fed), not modelled.",
+              "Lean 4 proof about request validation and the Arrow buffer layer + stateful model-based correspondence on raw buffers", "I.2 C16, II §3 C16"),
 })
 
 CLAIMED.update({
     "C04": _c("Lean model of _get_bounds and of both .cx paths (mask path; indexed path = R-tree covers ∪ filtered overlaps, sorted) with the "
               "theorems of Props/C04.lean; correspondence over array / GeoSeries / GeoDataFrame, 20 slice-end patterns, no index and indexes of page "
               "size 1/2/3/512 built before or after a first query; the model is run with the implementation's own key permutation.",
-              STD_NOTE, "Lean 4 proof (cx = filter; index path = mask path from C03 + C01) + correspondence", "§3 C04"),
+              STD_NOTE, "Lean 4 proof (cx = filter; index path = mask path from C03 + C01) + correspondence", "I.2 C04, II §3 C04"),
     "C05": _c("Lean model of the spatial join (pair table from the exact predicate, join shape per how) with the theorems of Props/C05.lean; "
               "correspondence compares complete result rows (columns, suffixes, index labels) as multisets for left point frames with duplicates / "
               "missing points / four index kinds and right frames of every kind incl. missing geometries and empty frames.",
-              STD_NOTE + "pandas.merge is modelled relationally (trusted base).", "Lean 4 proof about the join model + correspondence", "§3 C05"),
+              STD_NOTE + "pandas.merge is modelled relationally (trusted base).", "Lean 4 proof about the join model + correspondence", "I.2 C05, II §3 C05"),
     "C06": _c("Lean partition model (partition bounds, NaN-ignoring total bounds, cx over kept partitions) with the theorems of Props/C06.lean; "
               "correspondence: every Dask operation against the same operation on the concatenation of the partitions for seven provenances, plus "
               "partition_bounds / cx against the Lean model.",
               STD_NOTE + "Dask graph construction/execution, meta inference, from_delayed are exercised, not modelled.",
-              "Lean 4 proof about the partition model + Dask-vs-pandas correspondence", "§3 C06"),
+              "Lean 4 proof about the partition model + Dask-vs-pandas correspondence", "I.2 C06, II §3 C06"),
     "C08": _c("Lean exact-arithmetic reference for hilbert_distance (cell of the bbox centre, clip, degenerate extents) with the theorems of "
               "Props/C08.lean; equality with the reference where the scaling arithmetic is exact (power-of-two extents, also far from the origin), "
               "range / independence / argument-unmodified clauses for arbitrary floats and every argument type.",
-              STD_NOTE + "Float rounding of the scaling outside the exact regime is not interpreted.", "Lean 4 proof about the reference cell + correspondence", "§3 C08"),
+              STD_NOTE + "Float rounding of the scaling outside the exact regime is not interpreted.", "Lean 4 proof about the reference cell + correspondence", "I.2 C08, II §3 C08"),
     "C09": _c("Lean packing model (stable sort by key, any cut points) with the theorems of Props/C09.lean; correspondence: multiset of complete rows, "
               "index = Hilbert distance of the active geometry w.r.t. whole-frame bounds, monotonicity, partition count, independence of the input "
               "partitioning, and the model run with the cut points Dask chose.",
               STD_NOTE + "Dask's shuffle / quantile divisions are the unmodelled runtime; one known finding (D16) is listed in known_findings.json.",
-              "Lean 4 proof about the packing model + correspondence", "§3 C09"),
+              "Lean 4 proof about the packing model + correspondence", "I.2 C09, II §3 C09"),
     "C10": _c("The real function on the local filesystem through a logging fsspec wrapper: whole directory tree, returned frame and independent read "
               "for three tempdir modes x empty output partitions x prior datasets; Lean model of the renumbering moves (Props/C10.lean).",
-              STD_NOTE + "The protocol model covers the renumbering step only so far (partial); parquet encoding is pyarrow's.",
-              "Lean 4 proof about the renumbering + filesystem-level trace inspection", "§3 C10"),
+              STD_NOTE + "Partial: the protocol model covers the renumbering step (proved contiguous, order preserving, nothing overwritten); directory "
+              "creation, metadata files and overwrite are compared on the real filesystem, not proved; parquet encoding is pyarrow's.",
+              "Lean 4 proof about the renumbering + filesystem-level trace inspection", "I.2 C10, II §3 C10"),
     "C11": _c("Lean model of what spatialpandas contributes (dtype-name printer/parser over the registry regenerated from the source, column "
               "projection) with the theorems of Props/C11.lean; real round trips for all kinds / subtypes / index kinds / derived arrays / partitions / "
               "projections / lists and globs, with equal-valued frames of different subtype alive in the process.",
               STD_NOTE + "Partial by nature: byte-level fidelity of pyarrow / pandas is observed, not proved.",
-              "Lean 4 proof (decide over the regenerated registry) + round-trip correspondence", "§3 C11"),
+              "Lean 4 proof (decide over the regenerated registry) + round-trip correspondence", "I.2 C11, II §3 C11"),
     "C12": _c("Lean model of partition pruning and natural part order (Props/C12.lean); correspondence: recorded vs true per-partition bounds for both "
               "writers, 1..16 partitions, every geometry column, list / reversed list / glob of datasets, pruning vs the model, no intersecting row lost, "
-              "bounds after pruning.", STD_NOTE, "Lean 4 proof about pruning + correspondence", "§3 C12"),
+              "bounds after pruning.", STD_NOTE, "Lean 4 proof about pruning + correspondence", "I.2 C12, II §3 C12"),
     "C17": _c("Metamorphic correspondence for every operation named in the property (inert rows inserted first / last / whole page / every position / "
               "all rows / whole Dask partition / scattered) on top of the inertness corollaries of Props/C17.lean.",
-              STD_NOTE, "Lean 4 corollaries of the C01/C03/C04/C05/C13 models + metamorphic correspondence", "§3 C17"),
+              STD_NOTE, "Lean 4 corollaries of the C01/C03/C04/C05/C13 models + metamorphic correspondence", "I.2 C17, II §3 C17"),
     "C18": _c("Lean: every parallel loop found in the source (table regenerated per run) stores only to result[loop variable] and has no reduction "
               "(decide), renumbering moves are order dependent (negative witness); runtime: schedule sampling over numba threads, client threads on a "
               "shared un-indexed object, Dask schedulers, pack_partitions_to_parquet with filesystem delays.",
               STD_NOTE + "Partial by nature: memory-model effects, GIL release points and the Dask scheduler are not in any model; sampling supports, it does not prove.",
-              "Lean 4 proof over the regenerated write-set table + schedule sampling", "§3 C18"),
-    "C19": _c("Fault-injecting fsspec filesystem: one fault at every call position (OSError everywhere; FileNotFoundError / stale listing / partial "
-              "write where applicable), default and external temp dir, with empty output partitions; thorough adds all kinds everywhere, pairs and "
+              "Lean 4 proof over the regenerated write-set table + schedule sampling", "I.2 C18, II §3 C18"),
+    "C19": _c("Fault-injecting fsspec filesystem: one fault at every call position (OSError everywhere; FileNotFoundError sampled in quick, everywhere in "
+              "thorough; stale listing at every ls; partial write at every open), default and external temp dir, with empty output partitions; thorough adds all kinds everywhere, pairs and "
               "bursts beyond the retry budget; outcome must be 'raised' (then a fault-free overwrite run reproduces the dataset) or an identical dataset. "
-              "Lean: idempotence of the guarded move (Props/C19.lean).",
-              STD_NOTE + "Partial: the retry-block restartability proof over the whole protocol is not done; crash semantics below fsspec are not modelled.",
-              "exhaustive single-fault enumeration on the real code + Lean lemma on the guarded move", "§3 C19"),
+              "Lean (Props/C19.lean): the retry combinator (a restartable body under any fault schedule raises or ends where the fault-free run ends), "
+              "restartability of the guarded move and of the write step.",
+              STD_NOTE + "Partial: a theorem over the whole protocol is not built - the whole run is covered by the exhaustive single-fault enumeration "
+              "(every call position, stale listing at every ls, partial write at every open); faults are injected at every wrapped fsspec method "
+              "including those fsspec calls on itself; crash semantics below fsspec are not modelled.",
+              "Lean 4 proof of the retry combinator and step restartability + exhaustive single-fault enumeration on the real code", "I.2 C19, II §3 C19", category="proof"),
     "C20": _c("Lean specification machine for the active geometry (init resolution, set_geometry validation, row operations, column subsets) with the "
               "theorems of Props/C20.lean; correspondence over random operation sequences on pandas and Dask frames (per-partition active column, "
               "held-partition histories), spatial operations against the explicitly selected column.",
-              STD_NOTE + "pandas' __finalize__ routing is observed, not modelled.", "Lean 4 proof about the specification machine + correspondence", "§3 C20"),
+              STD_NOTE + "pandas' __finalize__ routing is observed, not modelled.", "Lean 4 proof about the specification machine + correspondence", "I.2 C20, II §3 C20"),
 })
 
 PENDING_REASON = "check not built yet in this round (planned, see DESIGN.md §8); not claimed"
